@@ -125,6 +125,33 @@ def fixed_leaves():
     return L
 
 
+def big_annotated_leaves():
+    """Larger self-adjoint leaves: parents whose off-diagonal blocks (offsets >= block size) are not self-adjoint."""
+    L = {}
+    L["Hc55"] = dense([[6, 1 + 1j, 1j, 0, 2], [1 - 1j, 6, 1 + 1j, 1j, 0], [-1j, 1 - 1j, 6, 1 + 1j, 1j],
+                       [0, -1j, 1 - 1j, 6, 1 + 1j], [2, 0, -1j, 1 - 1j, 6]], "c128")
+    L["Hc44"] = dense([[3, 1j, 1 + 1j, 0], [-1j, 3, 2j, 1 - 1j], [1 - 1j, -2j, 4, 1j], [0, 1 + 1j, -1j, 3]], "c64")
+    L["Sy44"] = dense([[2, 1, 0, -1], [1, 3, 2, 0], [0, 2, 1, 1], [-1, 0, 1, 2]], "f64")
+    return L
+
+
+def offset_forms():
+    """Slice / index-array forms with offsets (blocks away from the origin, permuted index arrays)."""
+    return [
+        {"t": "slice", "v": [None, 2, None]},
+        {"t": "slice", "v": [0, 2, None]},
+        {"t": "slice", "v": [2, 4, None]},
+        {"t": "slice", "v": [3, 5, None]},
+        {"t": "slice", "v": [2, 3, None]},
+        {"t": "slice", "v": [3, 4, None]},
+        {"t": "slice", "v": [1, 3, None]},
+        {"t": "array", "v": [1, 0]},
+        {"t": "array", "v": [0, 1]},
+        {"t": "array", "v": [2, 3]},
+        {"t": "array", "v": [3, 2]},
+    ]
+
+
 def random_leaves(seed, count=6):
     """Seeded extra Dense/Diagonal/Triangular leaves with small integer entries."""
     rng = random.Random(seed)
